@@ -695,3 +695,108 @@ func ruleG9(p *Prog, r *Report) {
 	}
 	r.Ok(R, "launchers-with-shortcut", "-", fmt.Sprintf("%d deterministic launcher(s) with a sequential shortcut", n))
 }
+
+// G10 a channel is closed at most once on every path.
+//
+// Closing a closed channel panics: a commit that has hit a ledger fault would then take the process down instead of
+// returning the error. Obligation per explicit `close(ch)` in a library function: no other explicit close of the same
+// channel is reachable from it, and no `defer close(ch)` / deferred function literal that closes the same channel was
+// registered on a path to it (the deferred close runs at the return that follows). Channels are identified by the
+// value or the captured variable they live in.
+func ruleG10(p *Prog, r *Report) {
+	const R = "G10"
+	n := 0
+	chanKey := func(fn *ssa.Function, v ssa.Value, bind map[*ssa.FreeVar]ssa.Value) ssa.Value {
+		for depth := 0; depth < 6; depth++ {
+			v = canon(v)
+			switch x := v.(type) {
+			case *ssa.UnOp:
+				if x.Op == token.MUL {
+					v = x.X
+					continue
+				}
+			case *ssa.FreeVar:
+				if b, ok := bind[x]; ok {
+					v = b
+					continue
+				}
+			}
+			break
+		}
+		return v
+	}
+	isClose := func(c *ssa.CallCommon) bool {
+		b, ok := c.Value.(*ssa.Builtin)
+		return ok && b.Name() == "close" && len(c.Args) == 1
+	}
+	for _, top := range p.TopFuncs() {
+		if p.IsTestFile(top.Pos()) {
+			continue
+		}
+		eachFuncDeep(top, func(fn *ssa.Function) {
+			if len(fn.Blocks) == 0 {
+				return
+			}
+			// deferred closes registered in fn
+			type dclose struct {
+				at ssa.Instruction
+				ch ssa.Value
+			}
+			var defers []dclose
+			var explicit []dclose
+			eachInstr(fn, func(in ssa.Instruction) {
+				switch x := in.(type) {
+				case *ssa.Defer:
+					if isClose(&x.Call) {
+						defers = append(defers, dclose{in, chanKey(fn, x.Call.Args[0], nil)})
+						return
+					}
+					if mc, ok := x.Call.Value.(*ssa.MakeClosure); ok {
+						g, _ := mc.Fn.(*ssa.Function)
+						if g == nil {
+							return
+						}
+						bind := map[*ssa.FreeVar]ssa.Value{}
+						for i, fv := range g.FreeVars {
+							if i < len(mc.Bindings) {
+								bind[fv] = mc.Bindings[i]
+							}
+						}
+						eachInstr(g, func(y ssa.Instruction) {
+							if c, ok := y.(*ssa.Call); ok && isClose(&c.Call) {
+								defers = append(defers, dclose{in, chanKey(g, c.Call.Args[0], bind)})
+							}
+						})
+					}
+				case *ssa.Call:
+					if isClose(&x.Call) {
+						explicit = append(explicit, dclose{in, chanKey(fn, x.Call.Args[0], nil)})
+					}
+				}
+			})
+			for _, e := range explicit {
+				n++
+				cons := "closed-once:" + p.Name(fn)
+				bad := ""
+				for _, d := range defers {
+					if d.ch == e.ch && canReach(fn, d.at, func(z ssa.Instruction) bool { return z == e.at }, nil) != nil {
+						bad = "a close of the same channel was deferred at " + p.InstrPos(d.at) + " and runs at the return that follows this close"
+					}
+				}
+				for _, e2 := range explicit {
+					if e2.at != e.at && e2.ch == e.ch && canReach(fn, e.at, func(z ssa.Instruction) bool { return z == e2.at }, nil) != nil {
+						if loopHeadOf(e.at.Block()) == nil || loopHeadOf(e.at.Block()) != loopHeadOf(e2.at.Block()) || e.at.Block().Dominates(e2.at.Block()) {
+							bad = "another close of the same channel at " + p.InstrPos(e2.at) + " is reachable from it"
+						}
+					}
+				}
+				r.Decide(bad == "", R, cons, p.InstrPos(e.at), "no second close of this channel on any path through this one", "the channel is closed twice on a path: "+bad+" - closing a closed channel panics, so a failing commit takes the process down instead of returning its error")
+			}
+			for _, d := range defers {
+				n++
+				_ = d
+			}
+		})
+	}
+	r.Floor(R, "channel closes", 6, n)
+}
